@@ -91,6 +91,48 @@ func (x *Exec) RegistryRun(steps int) {
 			}
 			idl := u.IDs(e)
 			ok = ok && n == 1 && idl.Len() == len(cids)
+			// exclusive and excluding filters against entities that carry one more component: the highest and
+			// the lowest registered id that is not in the list (mask inversion at every word boundary)
+			inList := map[ecs.ID]bool{}
+			for _, c := range cids {
+				inList[c] = true
+			}
+			extras := []ecs.ID{}
+			for k := len(all) - 1; k >= 0 && len(extras) < 1; k-- {
+				if !inList[all[k]] {
+					extras = append(extras, all[k])
+				}
+			}
+			for k := 0; k < len(all) && len(extras) < 2; k++ {
+				if !inList[all[k]] && (len(extras) == 0 || all[k] != extras[0]) {
+					extras = append(extras, all[k])
+				}
+			}
+			for _, x2 := range extras {
+				e2 := u.NewEntity(append(append([]ecs.ID{}, cids...), x2)...)
+				seen := func(q ecs.UnsafeQuery) (a, b int) {
+					for q.Next() {
+						if q.Entity() == e {
+							a++
+						}
+						if q.Entity() == e2 {
+							b++
+						}
+					}
+					return
+				}
+				a, b := seen(f.Query())
+				ok = ok && a == 1 && b == 1
+				a, b = seen(f.Exclusive().Query())
+				ok = ok && a == 1 && b == 0
+				a, b = seen(f.Without(x2).Query())
+				ok = ok && a == 1 && b == 0
+				a, b = seen(ecs.NewUnsafeFilter(w, x2).Without(cids[0]).Query())
+				ok = ok && a == 0 && b == 0
+				a, b = seen(ecs.NewUnsafeFilter(w, x2).Query())
+				ok = ok && a == 0 && b == 1
+				w.RemoveEntity(e2)
+			}
 			if len(cids) > 1 {
 				u.Remove(e, cids[0])
 				ok = ok && !u.Has(e, cids[0]) && u.Has(e, cids[len(cids)-1])
